@@ -1,10 +1,11 @@
 #!/bin/sh
 # usage: tools_seed_eval_wt.sh <worktree with the seeded change applied> <PID> [tier]
-# Runs the check against the worktree (VERIF_REPO) so that /repo is left alone; evidence is restored afterwards.
+# Runs the check against the worktree (VERIF_REPO) so that /repo is left alone; evidence and failure files go to a
+# scratch directory (VERIF_EVIDENCE / VERIF_OUT), so several evaluations may run at the same time.
 wt=$1; pid=$2; tier=${3:-quick}
 cd /verif
-cp evidence/$pid.json /tmp/evidence_$pid.bak 2>/dev/null
-VERIF_REPO=$wt VERIF_TMP=/tmp timeout 1500 ./check $pid --tier $tier > /tmp/seed_eval_$pid.out 2>&1
+tag=$(basename $wt)_$pid
+mkdir -p /tmp/seedeval/$tag
+VERIF_REPO=$wt VERIF_TMP=/tmp VERIF_EVIDENCE=/tmp/seedeval/$tag/evidence VERIF_OUT=/tmp/seedeval/$tag/out timeout 1500 ./check $pid --tier $tier > /tmp/seedeval/$tag/out.txt 2>&1
 rc=$?
-cp /tmp/evidence_$pid.bak evidence/$pid.json 2>/dev/null
-echo "rc=$rc violations=$(grep -c '^VIOLATION' /tmp/seed_eval_$pid.out)"; grep "^VIOLATION\|^MACHINERY" -A1 /tmp/seed_eval_$pid.out | head -6 | cut -c1-220
+echo "rc=$rc violations=$(grep -c '^VIOLATION' /tmp/seedeval/$tag/out.txt)"; grep "^VIOLATION\|^MACHINERY" -A1 /tmp/seedeval/$tag/out.txt | head -6 | cut -c1-220
